@@ -111,6 +111,7 @@ type JobResult struct {
 	CrossChecked int                    `json:"cross_checked"`
 	CrossBad     []string               `json:"cross_bad,omitempty"`
 	TimedOut     bool                   `json:"timed_out"`
+	StoppedEarly bool                   `json:"stopped_early"` // thousands of paths ended in the same violation: no need to enumerate the rest
 	Inconclusive int                    `json:"inconclusive"`
 	Error        string                 `json:"error,omitempty"`
 }
@@ -317,7 +318,7 @@ func runJob(prog *ssa.Program, spec *RunSpec, job *JobSpec) *JobResult {
 				if time.Now().After(deadline) && len(work) > 0 {
 					jr.TimedOut = true
 				}
-				if len(work) == 0 || jr.TimedOut || (job.MaxPaths > 0 && jr.Paths >= job.MaxPaths) {
+				if len(work) == 0 || jr.TimedOut || jr.StoppedEarly || (job.MaxPaths > 0 && jr.Paths >= job.MaxPaths) {
 					if len(work) > 0 && job.MaxPaths > 0 && jr.Paths >= job.MaxPaths {
 						jr.TimedOut = true
 					}
@@ -360,6 +361,9 @@ func runJob(prog *ssa.Program, spec *RunSpec, job *JobSpec) *JobResult {
 				if isFinding && f != nil {
 					if old, ok := findings[key]; ok {
 						old.Count++
+						if old.Count >= 3000 && job.Prefix == nil {
+							jr.StoppedEarly = true
+						}
 					} else {
 						f.Count = 1
 						findings[key] = f
